@@ -419,7 +419,9 @@ func GenPassSpec(r *Rand, v *IRView, kind string) PassSpec {
 	case "fields_set_default":
 		n := 1 + r.Intn(3)
 		for i := 0; i < n; i++ {
-			ps.Defaults = append(ps.Defaults, [2]any{v.fieldTarget(r), Pick(r, []any{"dv", 3, true, 1.5})})
+			ps.Defaults = append(ps.Defaults, [2]any{v.fieldTarget(r), Pick(r, []any{"dv", 3, true, 1.5, "dv", 3,
+				// values that reach the jennies as Go maps and slices
+				map[string]any{"zeta": "a", "alpha": "b", "mid": 1, "k4": true}, []any{"x", "y"}})})
 		}
 		if r.Chance(1, 3) && len(ps.Defaults) > 0 {
 			// two keys that fold onto the same field
